@@ -54,6 +54,10 @@ def check_shard_proof(shard_proof: bytes, blk: BlockIdExt, shrd_blk: BlockIdExt)
     mc_block_cell = shard_proof_cells[0]
     mc_state_root = shard_proof_cells[1]
 
+    for proof_cell in shard_proof_cells:
+        if proof_cell.type_ != CellTypes.merkle_proof:
+            raise ProofError(f'Expected Merkle proof Cell, got {proof_cell.type_} Cell type')
+
     block_info = Block.deserialize(mc_block_cell[0].begin_parse()).info
 
     if not (block_info.seqno == blk.seqno and block_info.shard.workchain_id == blk.workchain):
@@ -90,6 +94,10 @@ def check_account_proof(proof: bytes, shrd_blk: BlockIdExt, address: "Address", 
         raise ProofError('expected 2 root cells in account state proof')
 
     state_cell = proof_cells[1]
+
+    for proof_cell in proof_cells:
+        if proof_cell.type_ != CellTypes.merkle_proof:
+            raise ProofError(f'Expected Merkle proof Cell, got {proof_cell.type_} Cell type')
 
     state_hash = check_block_header_proof(proof_cells[0][0], shrd_blk.root_hash, True)
 
